@@ -78,7 +78,7 @@ def event_effect(events, i):
     return ev[1], val(i)
 
 
-def run_case(events, ts, via):
+def run_case(events, ts, via, run=None, clock_rows=False):
     timeline = build_timeline(events)
     given = copy.deepcopy([(t, dict(d)) for t, d in timeline])
     holder = probes.Probe({
@@ -102,7 +102,16 @@ def run_case(events, ts, via):
     eng = probes.MonitoredEngine(
         processes=processes, topology=topology,
         emitter={'type': 'vmc_probe'}, display_info=False)
-    eng.update(RUN)
+    eng.update(RUN if run is None else run)
+    if clock_rows:
+        # [(timeline clock variable, env)] per emitted row, in order
+        out = []
+        for r in eng.emitter.records:
+            if r['table'] == 'history':
+                env = r['snapshot'].get('env', {})
+                out.append((r['snapshot'].get('global', {}).get('time'),
+                            {'x': env.get('x'), 'y': env.get('y')}))
+        return out
     rows = {}
     for r in eng.emitter.records:
         if r['table'] == 'history':
@@ -160,6 +169,63 @@ def check(events, ts, via, acc):
     return rows
 
 
+# ----------------------------------------------------------------------
+# timesteps that are not exact in binary: "the clock has reached the event
+# time" is judged on the clock variable the simulation itself reports
+
+FLOAT_TIMES = [0.2, 0.3, 0.6, 0.9, 1.0]
+FLOAT_RUN = 1.5
+
+
+def check_float(events, ts, acc):
+    case = {'events': [list(e) for e in events], 'ts': ts, 'via': 'float'}
+    V = lambda rule, fp, msg: acc.violate(  # noqa
+        fw.violation(rule, fp, msg, case))
+    try:
+        rows = run_case(events, ts, 'direct', run=FLOAT_RUN,
+                        clock_rows=True)
+    except Exception as e:  # noqa
+        V('C19.crash', f'{type(e).__name__}:{str(e)[:50]}',
+          f'unexpected {e!r}')
+        return
+    order = sorted(range(len(events)), key=lambda i: (events[i][0], i))
+    pending = list(order)
+    cur = {'x': -1, 'y': -1}
+    prev_clock = None
+    n_ticks = 0
+    for clock, env in rows:
+        if prev_clock is not None and clock != prev_clock:
+            # a tick of the timeline process ran with clock = prev_clock
+            n_ticks += 1
+            due = [i for i in pending if events[i][0] <= prev_clock]
+            for i in due:
+                var, value = event_effect(events, i)
+                cur[var] = value
+            pending = [i for i in pending if i not in due]
+        if env != cur or any(type(env[k]) is not type(cur[k]) for k in cur):
+            early = any(env[k] != cur[k] and env[k] in
+                        [event_effect(events, i)[1] for i in pending]
+                        for k in cur)
+            V('C19.trajectory', 'event-early' if early else
+              'event-late-or-dropped',
+              f'ts={ts} events={events}: when the timeline clock reads '
+              f'{clock!r} env={env}, reference {cur} (an event fires at '
+              f'the first tick whose clock value is >= its time)')
+            return
+        prev_clock = clock
+    if n_ticks < 3:
+        V('C19.trajectory', 'float-world-vacuous',
+          f'ts={ts}: only {n_ticks} ticks observed')
+
+
+def float_event_lists(ctx):
+    alphabet = list(itertools.product(FLOAT_TIMES, ('x', 'y')))
+    out = []
+    for n in range(1, 3 if ctx.quick else 4):
+        out += [tuple(c) for c in itertools.product(alphabet, repeat=n)]
+    return out
+
+
 def event_lists(ctx):
     b = BOUNDS[ctx.tier]
     alphabet = list(itertools.product(TIMES, ('x', 'y')))
@@ -190,6 +256,12 @@ def event_lists(ctx):
 
 
 def run_job(job, acc):
+    if job[0] == 'float':
+        for ts in (0.1, 0.3):
+            check_float(job[1], ts, acc)
+            acc.case(key=('float', job[1], ts), outcome='float',
+                     nontrivial=True)
+        return
     events, = job[:1]
     for ts in (0.5, 1, 2, 3):
         for via in (('direct', 'add_timeline') if len(events) <= 2
@@ -205,11 +277,16 @@ def run_job(job, acc):
 
 
 def run(ctx):
-    return ctx.map(run_job, [(e,) for e in event_lists(ctx)])
+    return ctx.map(run_job, [(e,) for e in event_lists(ctx)] +
+                   [('float', e) for e in float_event_lists(ctx)])
 
 
 def replay(case):
     acc = fw.Acc()
-    check(tuple(tuple(e) for e in case['events']), case['ts'],
-          case['via'], acc)
+    if case['via'] == 'float':
+        check_float(tuple(tuple(e) for e in case['events']), case['ts'],
+                    acc)
+    else:
+        check(tuple(tuple(e) for e in case['events']), case['ts'],
+              case['via'], acc)
     return [v for exs in acc.viol_examples.values() for v in exs]
